@@ -355,11 +355,28 @@ class Application(MutableMapping[str | AppKey[Any], Any]):
 
         Should be called after shutdown()
         """
-        if self.on_cleanup.frozen:
-            await self.on_cleanup.send(self)
-        else:
-            # If an exception occurs in startup, ensure cleanup contexts are completed.
-            await self._cleanup_ctx._on_cleanup(self)
+        try:
+            if self.on_cleanup.frozen:
+                await self.on_cleanup.send(self)
+        finally:
+            # Whatever happened - startup failed before the app was frozen, or
+            # an on_cleanup receiver raised and cut the signal short - every
+            # cleanup context that was entered is completed, sub-apps included.
+            await self._exit_cleanup_contexts()
+
+    async def _exit_cleanup_contexts(self) -> None:
+        errors: list[BaseException] = []
+        apps = [self]
+        for app in apps:  # grows while iterating: nested sub-apps
+            apps.extend(app._subapps)
+            try:
+                await app._cleanup_ctx._on_cleanup(app)
+            except (Exception, asyncio.CancelledError) as exc:
+                errors.append(exc)
+        if errors:
+            if len(errors) == 1:
+                raise errors[0]
+            raise CleanupError("Multiple errors on cleanup stage", errors)
 
     def _prepare_middleware(self) -> Iterator[Middleware]:
         yield from reversed(self._middlewares)
@@ -435,7 +452,9 @@ class CleanupContext(FrozenList[_CleanupContextCallable]):
 
     async def _on_cleanup(self, app: Application) -> None:
         errors = []
-        for it in reversed(self._exits):
+        while self._exits:
+            # Popped first: a context is exited once, however often this runs.
+            it = self._exits.pop()
             try:
                 await it.__aexit__(None, None, None)
             except (Exception, asyncio.CancelledError) as exc:
